@@ -84,7 +84,7 @@ Lemma plain_entry_join ra r rb : plain_entry ra = true -> plain r = true -> plai
 Proof. unfold plain_entry. intros H1 H2 H3. rewrite forallb_app. cbn [forallb]. now rewrite H1, H2, H3. Qed.
 
 Lemma rel_op_step (m : nat -> M unit) X (g : relrec -> relrec) f i j st :
-  run_op fixed X = through 2 (m 2) ->
+  wraps X m ->
   (forall r0, plain r0 = true -> node_op m (crel_tree r0) (crel_tree (g r0))) ->
   (forall r0, plain r0 = true -> plain (g r0) = true) ->
   plain_field f = true -> rel_in_range f i j = true -> holds st (cfield_tree f) ->
@@ -98,14 +98,14 @@ Proof.
   destruct (plain_entry_split _ _ _ Pe) as (Pra & Pr0 & Prb).
   destruct (rel_node_op_runs m (g r0) fa ra r0 rb fb ts tid ri c d (Hop r0 Pr0) HT)
     as (ts' & a' & c' & d' & R3 & T3).
-  rewrite l_on_relation_split.
+  rewrite l_on_relation_split. set (r0' := g r0) in *.
   eexists. split; [|split].
   - eapply run_ops_cons; [apply (get_entry_runs fa (ra ++ r0 :: rb) fb ts tid ri a b c d HT)|].
     eapply run_ops_cons; [apply (get_rel_runs fa ra r0 rb fb ts tid ri b c d HT)|].
-    eapply run_ops_cons; [|reflexivity]. rewrite HX.
-    eapply through_runs; [exact R3|exact T3|]. cbn [s_tree h_path]. apply get_path_cfield_rel.
+    destruct (HX _ _ _ _ _ _ _ _ _ _ _ _ _ R3 T3 (get_path_cfield_rel fa ra r0' rb fb)) as (x & RX).
+    eapply run_ops_cons; [exact RX|reflexivity].
   - do 7 eexists. split; [reflexivity|exact T3].
-  - apply plain_field_join; auto. apply plain_entry_join; auto.
+  - apply plain_field_join; auto. apply plain_entry_join; auto. unfold r0'. auto.
 Qed.
 
 (* ------------------------------------------------------------------ one operation *)
@@ -114,7 +114,7 @@ Definition covered (o : aop) : bool :=
   match o with
   | APush e | AInsert _ e | AReplace _ e => forallb new_only e
   | ARemoveEntry _ => true
-  | ASetArchqual _ _ _ => true
+  | ASetArchqual _ _ _ | ASetVersion _ _ _ | ADropConstraint _ _ => true
   | _ => false
   end.
 
@@ -166,9 +166,24 @@ Proof.
     + cbn [compile]. eapply run_ops_cons; [exact R2|reflexivity].
     + do 7 eexists. split; [reflexivity|]. exact T2.
     + cbn [astep]. now apply forallb_l_remove.
+  - (* set_version *)
+    cbn [aop_in_range] in Hr. cbn [compile astep].
+    apply (rel_op_step (fun r => relation_set_version fixed r v) (OSetVersion 0 v) (rr_set_version v) f i j _
+             (wraps_through (OSetVersion 0 v) (fun r => relation_set_version fixed r v) eq_refl)); auto.
+    all: try (now exists ts, tid, ri, a, b, c, d).
+    all: try (intros r0 H0; destruct (plain_inv _ H0) as (n & q0 & v0 & ->); reflexivity).
+    intros r0 H0. destruct v as [[vc ver]|]; [now apply set_version_some_node_op|now apply set_version_none_node_op].
+  - (* drop_constraint *)
+    cbn [aop_in_range] in Hr. cbn [compile astep].
+    apply (rel_op_step (fun r => relation_set_version fixed r None) (ODropConstraint 0) (rr_set_version None) f i j _
+             wraps_drop_constraint); auto.
+    all: try (now exists ts, tid, ri, a, b, c, d).
+    all: try (intros r0 H0; destruct (plain_inv _ H0) as (n & q0 & v0 & ->); reflexivity).
+    intros r0 H0. now apply set_version_none_node_op.
   - (* set_archqual *)
     cbn [aop_in_range] in Hr. cbn [compile astep].
-    apply (rel_op_step (fun r => relation_set_archqual r q) (OSetArchqual 0 q) (rr_set_qual q) f i j _ eq_refl); auto.
+    apply (rel_op_step (fun r => relation_set_archqual r q) (OSetArchqual 0 q) (rr_set_qual q) f i j _
+             (wraps_through (OSetArchqual 0 q) (fun r => relation_set_archqual r q) eq_refl)); auto.
     all: try (now exists ts, tid, ri, a, b, c, d).
     all: try (intros r0 H0; destruct (plain_inv _ H0) as (n & q0 & v & ->); reflexivity).
 Qed.
